@@ -199,6 +199,7 @@ func trees(r *core.Run) {
 			return true
 		})
 		r.Section("trees-dsl")
+		layouts(r, &evals)
 	}
 	if os.Getenv("VERIF_ONLY") != "dsl" {
 		maxSize := int64(core.Pick(r, 1<<18, 0))
@@ -252,4 +253,67 @@ func replayTree(r *core.Run, raw json.RawMessage) bool {
 		fmt.Printf("  %s %s\n", f.sig, f.msg)
 	}
 	return len(fs) > 0
+}
+
+
+// layouts: leaves placed explicitly. A struct or an array of three fields, each read
+// inside its own range(off, w) window with (off, w) from a grid over a 5 byte input, in
+// every combination (equal and unequal sizes, contiguous, spaced, overlapping, out of
+// order), optionally preceded by a plain field: the fields are where the input says
+// (offset tables, strips, chunk indexes), not where the previous one ended. Same
+// coverage oracle as every other tree.
+func layouts(r *core.Run, evals *int64) {
+	type place struct{ off, w int64 }
+	var places []place
+	for _, w := range []int64{1, 3, 8} {
+		for _, off := range []int64{0, 1, 3, 8, 9, 11, 16, 19, 24, 32} {
+			if off+w <= 40 {
+				places = append(places, place{off, w})
+			}
+		}
+	}
+	if r.Quick() {
+		// quick: offsets {0,3,8,11,16,24} only
+		var p2 []place
+		for _, p := range places {
+			switch p.off {
+			case 0, 3, 8, 11, 16, 24:
+				p2 = append(p2, p)
+			}
+		}
+		places = p2
+	}
+	leaf := func(name string, p place) dsl.Op {
+		return dsl.Op{K: "range", Off: p.off, W: p.w, Body: []dsl.Op{{K: "u", Name: name, W: p.w}}}
+	}
+	in := dslInputs[0]
+	idx := int64(1) << 40
+	n := 0
+	for _, kind := range []string{"array", "struct"} {
+		for _, a := range places {
+			for _, b := range places {
+				for _, c := range places {
+					idx++
+					if !r.Mine(idx) {
+						continue
+					}
+					if idx&0x3ff == 0 && r.Expired() {
+						r.NotExhaustive("deadline during the layout enumeration")
+						return
+					}
+					p := dsl.Prog{{K: kind, Name: "t", Body: []dsl.Op{leaf("a", a), leaf("b", b), leaf("c", c)}}}
+					*evals++
+					n++
+					for _, f := range judgeDSLTree(p, in, false) {
+						r.Violate("layout:"+f.sig, fmt.Sprintf("prog %s input %x: %s", p, in, f.msg), TreeCase{Kind: "dsl", Prog: p.String(), Input: fmt.Sprintf("%x", in)})
+					}
+					if a != b && b != c {
+						r.Nontrivial(p.String())
+					}
+				}
+			}
+		}
+	}
+	r.Count("layout_programs", int64(n))
+	r.Section("trees-layouts")
 }
